@@ -18,6 +18,7 @@ from harness.gen import values as V
 from harness.mon import zygote
 
 PROP = "C11"
+CASE_WATCHDOG_S = 900.0  # a case runs several forked children one after the other; each child has its own (shorter) alarm
 TECHNIQUE = "differential runtime monitor (default vs generated delimiters) + forked-twin history monitor (interleaved environments vs each alone in a pristine child)"
 RULE = (
     "rewrite cases: G-ast template (all standard tags, liquid tags with inline comments, shorthand template comments, whitespace control) printed with "
